@@ -1372,7 +1372,13 @@ rrul_fill_wly(echs_instant_t *restrict tgt, size_t nti, rrulsp_t rr)
 	/* set up the wday mask */
 	with (unsigned int tmp) {
 		for (bitint_iter_t dowi = 0UL;
-		     (tmp = bi447_next(&dowi, &rr->dow), dowi);) {
+		     (tmp = bi447_next(&dowi, &rr->dow), dowi);)
+#if defined ECHSE_VERIF
+		__CPROVER_assigns(dowi, tmp, wd_mask)
+		__CPROVER_loop_invariant(CUR_OK_447(&rr->dow, dowi) && dowi <= 1000U && wd_mask <= 0xffU)
+		__CPROVER_decreases(1000 - (long)dowi)
+#endif	/* ECHSE_VERIF */
+		{
 			/* non-0 wday counts, as in nMO,nTU, etc.
 			 * are illegal in the WEEKLY frequency and
 			 * are ignored here */
@@ -1385,7 +1391,13 @@ rrul_fill_wly(echs_instant_t *restrict tgt, size_t nti, rrulsp_t rr)
 	/* set up the month mask */
 	with (unsigned int tmp) {
 		for (bitint_iter_t moni = 0UL;
-		     (tmp = bui31_next(&moni, rr->mon), moni);) {
+		     (tmp = bui31_next(&moni, rr->mon), moni);)
+#if defined ECHSE_VERIF
+		__CPROVER_assigns(moni, tmp, m_mask)
+		__CPROVER_loop_invariant(CUR_OK_BUI31(moni, rr->mon) && moni <= 64U)
+		__CPROVER_decreases(64 - (long)moni)
+#endif	/* ECHSE_VERIF */
+		{
 			m_mask |= 1U << tmp;
 		}
 	}
@@ -1409,7 +1421,14 @@ rrul_fill_wly(echs_instant_t *restrict tgt, size_t nti, rrulsp_t rr)
 		/* calculate wd increments
 		 * i.e. a bitset of increments, 4bits per increment */
 		for (unsigned int i = 0U, j = 0U;
-		     wd_mask; wd_mask >>= 1U, i++) {
+		     wd_mask; wd_mask >>= 1U, i++)
+#if defined ECHSE_VERIF
+		__CPROVER_assigns(i, j, wd_mask, wd_incs)
+		/* 4 bits per set weekday: with k weekdays still to come j <= 28 - 4k */
+		__CPROVER_loop_invariant(j <= 28U && (j & 3U) == 0U && wd_mask < (1U << ((28U - j) / 4U)))
+		__CPROVER_decreases(wd_mask)
+#endif	/* ECHSE_VERIF */
+		{
 			if (wd_mask & 0b1U) {
 				wd_incs |= (i & 0b1111U) << j;
 				i = 0U;
@@ -1424,7 +1443,17 @@ rrul_fill_wly(echs_instant_t *restrict tgt, size_t nti, rrulsp_t rr)
 	     res < nti && y <= 2099U;
 	     ({
 		     d += rr->inter * 7U;
-		     while (d > maxd) {
+		     while (d > maxd)
+#if defined ECHSE_VERIF
+		     __CPROVER_assigns(y, m, d, maxd)
+		     __CPROVER_loop_invariant(
+			     1U <= m && m <= 12U && 1U <= d && d <= 500U && y <= 2600U && y + d <= 2600U &&
+			     maxd == (unsigned int)S_MDAYS(y, m) &&
+			     ((y == __CPROVER_loop_entry(y) && m == __CPROVER_loop_entry(m) && d == __CPROVER_loop_entry(d)) ||
+			      y > __CPROVER_loop_entry(y) || (y == __CPROVER_loop_entry(y) && m > __CPROVER_loop_entry(m))))
+		     __CPROVER_decreases(d)
+#endif	/* ECHSE_VERIF */
+		     {
 			     d--, d %= maxd, d++;
 			     if (++m > 12U) {
 				     y++;
@@ -1432,17 +1461,44 @@ rrul_fill_wly(echs_instant_t *restrict tgt, size_t nti, rrulsp_t rr)
 			     }
 			     maxd = echs_scale_ndim(srcsca, y, m);
 		     }
-	     })) {
+	     }))
+#if defined ECHSE_VERIF
+	__CPROVER_assigns(y, m, d, maxd, res, __CPROVER_object_upto(tgt, 2U * GRP_CCH_OFF * sizeof(*tgt)))
+	__CPROVER_loop_invariant(
+		1U <= m && m <= 12U && 1U <= d && d <= maxd && maxd == (unsigned int)S_MDAYS(y, m) &&
+		y <= 2600U && res <= nti &&
+		VERIF_DLY_SLOT_OK(tgt, verif_k, res, proto, rr->until))
+	__CPROVER_decreases(2601 - (long)y, 12 - (long)m, 31 - (long)d)
+#endif	/* ECHSE_VERIF */
+	{
 		uint_fast32_t incs = wd_incs;
 		unsigned int this_maxd = maxd;
 		unsigned int this_d = d;
 		unsigned int this_m = m;
 		unsigned int this_y = y;
 
-		do {
+		do
+#if defined ECHSE_VERIF
+		__CPROVER_assigns(incs, this_d, this_m, this_y, this_maxd, res, __CPROVER_object_upto(tgt, 2U * GRP_CCH_OFF * sizeof(*tgt)))
+		__CPROVER_loop_invariant(
+			1U <= this_m && this_m <= 12U && 1U <= this_d && this_d <= this_maxd &&
+			this_maxd == (unsigned int)S_MDAYS(this_y, this_m) && this_y <= 2700U && res <= nti &&
+			VERIF_DLY_SLOT_OK(tgt, verif_k, res, proto, rr->until))
+		__CPROVER_decreases(incs)
+#endif	/* ECHSE_VERIF */
+		{
 			this_d += incs & 0b1111U;
 
-			while (this_d > this_maxd) {
+			while (this_d > this_maxd)
+#if defined ECHSE_VERIF
+			__CPROVER_assigns(this_y, this_m, this_d, this_maxd)
+			__CPROVER_loop_invariant(
+				1U <= this_m && this_m <= 12U && 1U <= this_d && this_d <= 100U &&
+				this_y <= 2800U && this_y + this_d <= 2800U &&
+				this_maxd == (unsigned int)S_MDAYS(this_y, this_m))
+			__CPROVER_decreases(this_d)
+#endif	/* ECHSE_VERIF */
+			{
 				this_d--, this_d %= this_maxd, this_d++;
 				if (++this_m > 12U) {
 					this_y++;
@@ -1455,7 +1511,15 @@ rrul_fill_wly(echs_instant_t *restrict tgt, size_t nti, rrulsp_t rr)
 			for (ENUM_INIT(e, iS, iM, iH);
 			     /* the cache may be full before the day is through */
 			     res < nti && ENUM_COND(e, iS, iM, iH);
-			     ENUM_ITER(e, iS, iM, iH)) {
+			     ENUM_ITER(e, iS, iM, iH))
+#if defined ECHSE_VERIF
+			__CPROVER_assigns(iS, iM, iH, res, __CPROVER_object_upto(tgt, 2U * GRP_CCH_OFF * sizeof(*tgt)))
+			__CPROVER_loop_invariant(
+				iS <= e.nS && iM < e.nM && iH < e.nH && res <= nti &&
+				VERIF_DLY_SLOT_OK(tgt, verif_k, res, proto, rr->until))
+			__CPROVER_decreases((long)e.nH - (long)iH, (long)e.nM - (long)iM, (long)e.nS - (long)iS)
+#endif	/* ECHSE_VERIF */
+			{
 				echs_instant_t x = {
 					.y = this_y,
 					.m = this_m,
